@@ -41,7 +41,7 @@ static unsigned long long n_cases, n_enc, n_dec, n_verdict_acc, n_verdict_rej, n
     n_inplace, n_forged_ok, n_zero_regions, n_zero_bytes, n_guard_end, n_guard_start, n_mid, n_null, n_pairs,
     n_ctl_pairs, n_short, n_checktag, n_long;
 
-static gbuf_t gC, gM, gAD, gK, gN, gM2, gC2;
+static gbuf_t gC, gM, gAD, gK, gN, gM2, gC2, gAD2, gK2;
 
 static void model_seal(const variant_t *v, uint8_t *c, const uint8_t *m, size_t mlen, const uint8_t *ad, size_t adlen,
                        const uint8_t *n, const uint8_t *k)
@@ -61,9 +61,9 @@ static void model_open(const variant_t *v, uint8_t *m, uint8_t tag[8], const uin
 
 static const char *fault_where(const void *a, int *side)
 {
-    gbuf_t *all[7] = {&gC, &gM, &gAD, &gK, &gN, &gM2, &gC2};
+    gbuf_t *all[9] = {&gC, &gM, &gAD, &gK, &gN, &gM2, &gC2, &gAD2, &gK2};
     int i;
-    for (i = 0; i < 7; ++i) {
+    for (i = 0; i < 9; ++i) {
         int c = gb_classify(all[i], a);
         if (c) { *side = c; return all[i]->role; }
     }
@@ -599,6 +599,31 @@ static void huge_ad_case(const args_t *a, long idx, const variant_t *v)
     munmap(ad, adlen + 16);
 }
 
+/* C03/C08: extending or truncating the AD by exactly 2^32 bytes must be rejected like any other AD modification */
+static void huge_tamper_case(const args_t *a, long idx, const variant_t *v)
+{
+    size_t big = ((size_t)1 << 32) + 5, mlen = 6, clen = 0, ml = 0;
+    uint8_t *ad = huge_map(big + 16), k[32], n[12], m[8], c[16], mo[8];
+    rng_t r = rng_for(a->seed, 0x4063, (uint64_t)idx);
+    char key[96];
+    int rc, i;
+    set_case("{\"h\":\"aead\",\"mode\":\"huge-ad-tamper\",\"v\":\"%s\",\"i\":%ld,\"sealed_adlen\":5,\"opened_adlen\":%zu}", v->name, idx, big);
+    ++n_cases; ++n_long;
+    cls_add(mix64(0x4063, (uint64_t)(v - VARS)));
+    emit_sample();
+    fill_random(&r, k, 32); fill_random(&r, n, 12); fill_random(&r, m, 8);
+    ad[0] = 1; ad[1] = 2; ad[2] = 3; ad[3] = 4; ad[4] = 5;          /* the rest of the region stays zero pages */
+    v->enc(c, &clen, m, mlen, ad, 5, n, k); ++n_enc;
+    memset(mo, 0xEE, sizeof mo);
+    rc = v->dec(mo, &ml, c, mlen + 8, ad, big, n, k); ++n_dec; ++n_verdict_rej;
+    if (rc == 0) { snprintf(key, sizeof key, "accept-forged:%s:ad-extended-by-2^32", v->name); emit_viol(key, "a packet sealed with 5 bytes of AD was accepted with 2^32+5 bytes of AD (same first 5 bytes)"); }
+    else { for (i = 0; i < (int)mlen; ++i) if (mo[i]) { snprintf(key, sizeof key, "plaintext-not-zeroed:%s:huge", v->name); emit_viol(key, "rejected packet left plaintext"); break; } }
+    v->enc(c, &clen, m, mlen, ad, big, n, k); ++n_enc;
+    rc = v->dec(mo, &ml, c, mlen + 8, ad, 5, n, k); ++n_dec; ++n_verdict_rej;
+    if (rc == 0) { snprintf(key, sizeof key, "accept-forged:%s:ad-truncated-by-2^32", v->name); emit_viol(key, "a packet sealed with 2^32+5 bytes of AD was accepted with only its first 5 bytes"); }
+    munmap(ad, big + 16);
+}
+
 /* message of 2^32 + 5 bytes, encrypted and decrypted in place: exact round-trip oracle */
 static void huge_msg_case(const args_t *a, long idx, const variant_t *v)
 {
@@ -718,9 +743,21 @@ static void run_case(const args_t *a, long idx, const variant_t *v, size_t adlen
     }
 
     if (F_RT || F_MODEL) {
-        /* out-of-place or in-place decryption of the library's packet */
+        /* out-of-place or in-place decryption of the library's packet.  The receiver's copies of AD and key live at
+         * DIFFERENT addresses, in a different alignment class (4-byte aligned vs not) than the sender's. */
         uint8_t *mo;
         int rc;
+        {
+            unsigned o2 = (offs[2] & 3) ? (offs[2] & 4) : ((offs[2] & 4) | (1 + (unsigned)(idx % 3)));
+            uint8_t *ad2 = gb_place(&gAD2, adlen, adlen ? PL_MID : place_ad, o2, !nullmode, 0);
+            uint8_t *k2 = gb_place(&gK2, (size_t)v->ks, PL_MID, (offs[3] & 3) ? 0 : 1 + (unsigned)(idx % 3), 0, 0);
+            if (adlen) memcpy(ad2, ad, adlen);
+            memcpy(k2, k, (size_t)v->ks);
+            gb_readonly(&gAD2); gb_readonly(&gK2);
+            kc.ad = ad2; kc.k = k2;
+        }
+#define ad kc.ad
+#define k kc.k
         if (alias == 2) {
             mo = gb_place(&gM2, mlen + 8, place_c, offs[0], 0, 0);
             memcpy(mo, cref, mlen + 8);
@@ -772,6 +809,10 @@ static void run_case(const args_t *a, long idx, const variant_t *v, size_t adlen
             snprintf(key, sizeof key, "input-modified:%s", v->name);
             emit_viol(key, "the message input buffer was modified");
         }
+#undef ad
+#undef k
+        gb_writable(&gAD2); gb_writable(&gK2);
+        kc.ad = ad; kc.k = k;
     }
 
     if (F_MODEL) {
@@ -854,9 +895,14 @@ int main(int argc, char **argv)
     if (strstr(a.mode, "both")) v0 = 0;
     gb_init(&gC, "c", 1 << 16); gb_init(&gM, "m", 1 << 16); gb_init(&gAD, "ad", 1 << 12); gb_init(&gK, "key", 64);
     gb_init(&gN, "npub", 64); gb_init(&gM2, "m-out", 1 << 16); gb_init(&gC2, "c-in", 1 << 16);
+    gb_init(&gAD2, "ad-receiver", 1 << 12); gb_init(&gK2, "key-receiver", 64);
 
     if (strstr(a.mode, "hugead")) {
         for (vi = 0; vi < 6; ++vi, ++idx) if (mine(&a, idx)) huge_ad_case(&a, idx, &VARS[vi]);
+        NL = 0; W = -1;
+    }
+    if (strstr(a.mode, "hugetamper")) {
+        for (vi = v0; vi < v0 + nv; ++vi, ++idx) if (mine(&a, idx)) huge_tamper_case(&a, idx, &VARS[vi]);
         NL = 0; W = -1;
     }
     if (strstr(a.mode, "hugemsg")) {
